@@ -164,6 +164,11 @@ class _Service(httpx.AsyncBaseTransport):
                 # the service answers without applying the request; the body is still drained
                 await self._read_body(request, None)
                 return self._status_response(fault, request)
+            if fault.kind == 'okerror':
+                # "200 OK" whose body is an error document (S3 does this under load): nothing was served
+                await self._read_body(request, None)
+                self.count('fault:okerror')
+                return self.respond(200, self.error_body(503), {'content-type': 'application/xml'})
             self._raise(fault)
         body = await self._read_body(request, fault if is_upload else None)
         resp = await self.serve(op, request, body)
